@@ -546,7 +546,11 @@ func refJSON(v cty.Value, b *bytes.Buffer) bool {
 		if isInf(v) {
 			return false
 		}
-		b.WriteString(bf(v).Text('f', -1))
+		if bf(v).IsInt() {
+			b.WriteString(bf(v).Text('f', 0)) // whole numbers are exact
+		} else {
+			b.WriteString(bf(v).Text('f', -1))
+		}
 	case t == cty.Bool:
 		if v.True() {
 			b.WriteString("true")
